@@ -174,6 +174,55 @@ theorem step_keeps_setting (fam : Family) (ori : Nat × Nat) (st : State) (op : 
   · cases hs : st.size with
     | fixed w h => simp [hs]
     | dynamic s => simp only []; split <;> simp
+  · cases hs : st.size with
+    | fixed w h => simp only []; split <;> simp [hs]
+    | dynamic s => simp only []; split <;> simp
+
+/-- a render attempt — successful, refused by the size check (`InvalidSizeError`), failing in
+    `_get_image()` (source unreadable) or failing in the renderer — leaves the *whole* state as
+    it found it: a dynamic size is put back, a fixed one is never touched -/
+theorem render_leaves_state (fam : Family) (ori : Nat × Nat) (st : State) (check scroll : Bool) (fail : RFail) :
+    (step fam ori st (.renderWith check scroll fail)).1 = st ∧ (step fam ori st .render).1 = st := by
+  have key : ∀ s, st.size = .dynamic s → ({ st with size := .dynamic s } : State) = st := by
+    intro s hs; cases hq : st with | mk sz e => rw [hq] at hs; simp at hs; simp [hs]
+  constructor <;> simp only [step]
+  · cases hs : st.size with
+    | fixed w h => simp only []; split <;> rfl
+    | dynamic s => simp only []; split <;> simp [key s hs]
+  · cases hs : st.size with
+    | fixed w h => rfl
+    | dynamic s => simp only []; split <;> simp [key s hs]
+
+/-- what a render attempt of a dynamic size observes: the size preparation's exception if there
+    is one, else — with the size `_valid_size` gives in the *current* environment — the render,
+    `FileNotFoundError` (source) or the renderer's exception; no size check applies -/
+theorem dynamic_render_obs (fam : Family) (ori : Nat × Nat) (st : State) (s : Size) (hst : st.size = .dynamic s)
+    (check scroll : Bool) (fail : RFail) :
+    (step fam ori st (.renderWith check scroll fail)).2 =
+      match validSize fam st.env ori (.sz s) .none defaultFrame with
+      | .error e => .err e
+      | .ok (w, h) => rfailObs fail w h := by
+  simp only [step, hst, setSize_auto]
+  cases hv : validSize fam st.env ori (.sz s) .none defaultFrame with
+  | error e => rfl
+  | ok p => rfl
+
+/-- a fixed size is validated against the *current* terminal when `check_size`; otherwise the
+    attempt runs (or fails) with exactly the fixed size -/
+theorem fixed_render_obs (fam : Family) (ori : Nat × Nat) (st : State) (w h : Nat) (hst : st.size = .fixed w h)
+    (check scroll : Bool) (fail : RFail) :
+    (step fam ori st (.renderWith check scroll fail)).2 =
+      if check = true ∧ (st.env.cols < w ∨ (scroll = false ∧ st.env.lines < h)) then .err .invalidSizeError
+      else rfailObs fail w h := by
+  simp only [step, hst]
+  by_cases hc : check = true ∧ (st.env.cols < w ∨ (scroll = false ∧ st.env.lines < h))
+  · rw [if_pos hc]
+    obtain ⟨h1, h2⟩ := hc
+    rcases h2 with h2 | ⟨h2, h3⟩ <;> simp [h1, h2, *]
+  · rw [if_neg hc]
+    have : (check && (decide (st.env.cols < w) || (!scroll && decide (st.env.lines < h)))) = false := by
+      cases check <;> cases scroll <;> simp_all
+    simp [this]
 
 theorem run_keeps_setting (fam : Family) (ori : Nat × Nat) (ops : List Op) :
     ∀ st : State, (∀ op ∈ ops, op.isSet = false) → (run fam ori st ops).size = st.size := by
@@ -236,6 +285,18 @@ example :
       = [(.rendered 80 12, .dynamic .fit, .ok (80, 12)), (.done, .dynamic .fit, .ok (100, 15)),
          (.rendered 100 15, .dynamic .fit, .ok (100, 15)), (.done, .fixed 100 15, .ok (100, 15)),
          (.done, .fixed 100 15, .ok (100, 15)), (.rendered 100 15, .fixed 100 15, .ok (100, 15))] := by
+  rfl
+
+/-- a history with failing render attempts between resizes: the dynamic setting survives every
+    one of them and the next read follows the new terminal size -/
+example :
+    let st : State := ⟨.dynamic .fit, ⟨80, 30, none, some (divNat 1 2)⟩⟩
+    trace .text (1000, 300) st [.renderWith false false .source, .resize 100 40, .renderWith true false .renderer,
+        .renderWith true false .none, .sizeTuple 120 10, .renderWith true false .none, .renderWith false false .source]
+      = [(.err .fileNotFoundError, .dynamic .fit, .ok (80, 12)), (.done, .dynamic .fit, .ok (100, 15)),
+         (.err .runtimeError, .dynamic .fit, .ok (100, 15)), (.rendered 100 15, .dynamic .fit, .ok (100, 15)),
+         (.done, .fixed 120 10, .ok (120, 10)), (.err .invalidSizeError, .fixed 120 10, .ok (120, 10)),
+         (.err .fileNotFoundError, .fixed 120 10, .ok (120, 10))] := by
   rfl
 
 /-! ## the float-dependent inequalities
